@@ -107,7 +107,7 @@ CHECKS = {
     },
     "C17": {
         "kind": "go",
-        "quick": [{"test": "TestC17", "checks": 28, "timeout": 600, "shrinktime": "5s"}],
+        "quick": [{"test": "TestC17", "checks": 32, "timeout": 600, "shrinktime": "5s"}],
         "thorough": [{"test": "TestC17", "checks": 15, "shards": 4, "timeout": 3000, "shrinktime": "10s"}],
         "essential": ["collation_x_q", "collation_x_s", "collation_x_i", "alpha_x_c", "unsigned_x_c", "signed_x_c", "float_x_c", "compound_x_c", "collation_x_c"],
         "assumptions": ["a measurement, not a proof of boundedness: live heap = runtime.MemStats.HeapAlloc after two forced collections",
